@@ -62,6 +62,16 @@ impl<F: Fn(TracingEvent) + 'static> TracingEventSender<F> {
         }
     }
 
+    /// Verification hook: creates a subscriber whose span IDs start from `next_span_id`.
+    #[cfg(feature = "verif-hooks")]
+    #[doc(hidden)]
+    pub fn verif_with_next_span_id(on_event: F, next_span_id: u32) -> Self {
+        Self {
+            next_span_id: AtomicU32::new(next_span_id),
+            on_event,
+        }
+    }
+
     fn metadata_id(metadata: &'static Metadata<'static>) -> MetadataId {
         metadata as *const _ as MetadataId
     }
